@@ -273,7 +273,12 @@ fn gen_case(rng: &mut Rng, root: &str) -> ImportCase {
     let directive = *rng.pick(&["import", "import", "use", "use", "forward", "load-css"]);
     // URL
     // ("httpx" and "urlish" only look like the beginning of a plain-CSS import)
-    let name = *rng.pick(&["foo", "foo", "bar", "foo.bar", "x.y.z", "lib", "httpx", "urlish"]);
+    // names are taken as written: no URL decoding, no case folding, no trimming
+    let name = if rng.chance(0.2) {
+        *rng.pick(&["col%41", "my%20theme", "my theme", "a+b", "\u{fc}n\u{ef}", "Mixed.Case", "trail.", "100%", "q?x", "h#x"])
+    } else {
+        *rng.pick(&["foo", "foo", "bar", "foo.bar", "x.y.z", "lib", "httpx", "urlish"])
+    };
     // (`../../` leaves the directory of an importer at the root by two levels: legal, and the
     // shape on which hand-written path normalisation goes wrong)
     let prefix = *rng.pick(&["", "", "", "", "sub/", "../", "./", "sub/../", "../../", "sub/../../"]);
@@ -346,10 +351,20 @@ fn gen_case(rng: &mut Rng, root: &str) -> ImportCase {
             }
             mid_url = "imp".to_string();
         }
-        let how = rng.below(3);
-        let text = if how == 0 { format!("@use \"{}\" as mid;\n", mid_url) } else { format!("@import \"{}\";\n", mid_url) };
+        // (through meta.load-css as well: the loaded file's own loads start in ITS directory)
+        let mut how = rng.below(4);
+        if how == 3 && directive == "load-css" {
+            // grass evaluates a load-css'd file in the caller's module scope, so the file's own
+            // `@use "sass:meta"` collides with the caller's: module semantics (C12), not the search
+            how = 0;
+        }
+        let text = match how {
+            0 => format!("@use \"{}\" as mid;\n", mid_url),
+            3 => format!("@use \"sass:meta\";\n@include meta.load-css(\"{}\");\n", mid_url),
+            _ => format!("@import \"{}\";\n", mid_url),
+        };
         files.push((entry.clone(), text.into_bytes()));
-        extra_urls.push((entry.clone(), mid_url, how != 0));
+        extra_urls.push((entry.clone(), mid_url, how != 0 && how != 3));
         entry_path = entry;
     } else {
         entry_path = importer.clone();
@@ -394,6 +409,16 @@ fn gen_case(rng: &mut Rng, root: &str) -> ImportCase {
                     levels.push(vec![wrong]);
                 }
             }
+        }
+        // what an implementation that treats the URL as something to decode, fold or cut would
+        // pick (never a legitimate candidate)
+        let respelled: Vec<String> = [p.replace("%41", "A").replace("%20", " "), p.replace(' ', "%20"), p.replace('+', " "), p.to_lowercase(), p.split(|c| c == '?' || c == '#').next().unwrap_or("").to_string(), p.trim_end_matches('.').to_string()]
+            .into_iter()
+            .filter(|r| *r != p && !r.is_empty())
+            .collect();
+        if !respelled.is_empty() && rng.chance(0.7) {
+            let r = rng.pick(&respelled).clone();
+            levels.push(if explicit_ext(&p).is_some() { vec![r] } else { vec![format!("{}.scss", r), join(&dirname(&r), &format!("_{}.scss", basename(&r)))] });
         }
         for lv in levels {
             if rng.chance(q) {
@@ -625,6 +650,12 @@ fn gen_plain_case(rng: &mut Rng, root: &str) -> ImportCase {
         ("@import \"bar.css\" print;", "bar.css"),
         // the last path component is nothing but the extension
         ("@import \"theme/.css\";", "theme/.css"),
+        // the shortest URLs of each plain-CSS form
+        ("@import \"//a\";", "//a"),
+        ("@import \"//ab\" print;", "//ab"),
+        ("@import \"//a/b\";", "//a/b"),
+        ("@import \"a.css\";", "a.css"),
+        ("@import \".css\";", ".css"),
     ];
     let n = rng.range(1, 3) as usize;
     let mut text = String::new();
